@@ -512,6 +512,28 @@ def run(tier):
             ctx.stats["identity"] += 1
         else:
             ctx.violation("position:" + tpl, f"names XY / XYZW / XY9 give different results in `{tpl}`", {"template": tpl, "outputs": [str(o)[:300] for o in outs]})
+    # loop positions: every FOR variable is named by exactly one FOR and one NEXT of the output - also where the source
+    # closes the loop with a bare NEXT or inside a NEXT list (the tool writes the name it thinks is open there)
+    loops = ["10 FOR {v}=1 TO 2:NEXT", "10 FOR {v}=1 TO 2:FOR I=1 TO 2:NEXT I:NEXT", "10 FOR {v}=1 TO 2:FOR I=1 TO 2:NEXT:NEXT {v}",
+             "10 FOR {v}=1 TO 2:FOR I=1 TO 2:FOR J=1 TO 2:NEXT J,I:NEXT", "10 FOR K=1 TO 2:FOR {v}=1 TO 2:FOR J=1 TO 2:NEXT J,{v}:NEXT",
+             "10 FOR K=1 TO 2:FOR I=1 TO 2:FOR {v}=1 TO 2:NEXT:NEXT I,K", "10 FOR K=1 TO 2:FOR I=1 TO 2:FOR {v}=1 TO 2:NEXT {v},I,K",
+             "10 FOR G=1 TO 2:FOR {v}=1 TO 2:FOR I=1 TO 2:FOR J=1 TO 2:NEXT J,I:NEXT:NEXT", "10 FOR {v}=1 TO 2\n20 FOR I=1 TO 2:NEXT I\n30 NEXT",
+             "10 FOR {v}=1 TO 2:FOR I=1 TO 2:NEXT I,{v}:FOR {v}=3 TO 4:NEXT"]
+    for tpl in loops:
+        for nm in ("XY", "XYZW"):
+            o = classify(tpl.format(v=nm) + "\n")
+            ctx.stats["programs"] += 1
+            ctx.stats["obligations"] += 1
+            if o[0] != "ok":
+                ctx.stats["identity"] += 1
+                continue
+            fors = re.findall(r"\bFOR (\w+)", o[1])
+            nexts = re.findall(r"\bNEXT (\w+)", o[1])
+            if sorted(fors) == sorted(nexts) and fors.count("XY") == tpl.count("FOR {v}"):
+                ctx.stats["identity"] += 1
+            else:
+                ctx.violation("position:loop-variable:" + tpl.replace("\n", " / "), f"`{tpl.format(v=nm)}`: FOR names {fors}, NEXT names {nexts} - every loop variable must be named by one FOR and one NEXT", {"template": tpl, "loop": True, "outputs": [o[1][:300]]})
+                break
     name_language(ctx, var_pat, str_pat, maxlen)
     embedded_keywords(ctx)
     same_name_kinds(ctx)
@@ -540,6 +562,10 @@ def replay(rec):
             outs.append(convert_plain(f"10 {lhs}={rhs}\n"))
         print(outs)
         return True
+    if "template" in rec and rec.get("loop"):
+        o = classify(rec["template"].format(v="XY") + "\n")
+        print(o)
+        return o[0] == "ok" and sorted(re.findall(r"\bFOR (\w+)", o[1])) != sorted(re.findall(r"\bNEXT (\w+)", o[1]))
     if "template" in rec:
         outs = [classify(rec["template"].format(v=nm, s=nm + "$") + "\n") for nm in ("XY", "XYZW", "XY9")]
         print(outs)
